@@ -99,8 +99,10 @@ def fwdVerdict (args : List Sexp) : Verdict :=
       | .list (.atom "res" :: f :: n :: .atom wraps :: recorded) =>
         match parseFailed f, asNat n with
         | some implFailed, some implN =>
-          if failed.isSome && implFailed.isNone then
-            .oracle s!"write {k} failed and every call returned nil (the model reports call {failed.getD 0})"
+          if implFailed.isNone && wraps == "swallowed" then
+            .oracle s!"the destination refused write {k} and every call returned nil (the model reports call {failed.getD 0})"
+          else if failed.isSome && implFailed.isNone then
+            .diff s!"model: write {k} is issued (by call {failed.getD 0}); the implementation issued fewer writes"
           else if implFailed.isSome && wraps != "true" then
             .oracle s!"write {k} failed and call {implFailed.getD 0} returned an error that does not wrap the writer's error"
           else if implFailed != failed then .diff s!"model: failing call {failed}, implementation {implFailed}"
